@@ -57,3 +57,64 @@ func freeVarBindings(fn *ssa.Function) map[string]ssa.Value {
 	}
 	return out
 }
+
+// subObligations runs another property's rule set on the same loaded programs
+// and adopts the obligations selected by keep under new rule ids.
+func subObligations(c *Ctx, run func(*Ctx), oldPrefix, newPrefix string, keep func(rule string) bool) {
+	sub := newCtx(c.Prop, c.Tier, c.Seed)
+	sub.progs, sub.overlay, sub.quiet, sub.curCfg = c.progs, c.overlay, true, c.curCfg
+	run(sub)
+	for _, o := range sub.Obls {
+		if keep != nil && !keep(o.Rule) {
+			continue
+		}
+		if len(o.Rule) >= len(oldPrefix) && o.Rule[:len(oldPrefix)] == oldPrefix {
+			o.Rule = newPrefix + o.Rule[len(oldPrefix):]
+		}
+		c.Obls = append(c.Obls, o)
+	}
+	c.undecided = append(c.undecided, sub.undecided...)
+}
+
+// c09EnvPreserves: "an environment variable overrides the file value" of the
+// parameter it names, not the whole entry: an UnmarshalEnv that delegates to
+// env.Load(prefix, recv.F) must keep what the file put into recv.F - every
+// store to recv.F in that method is guarded by recv.F == nil (seeded change
+// C09 dropped the guard in OptionalPath.UnmarshalEnv: MTX_PATHS_X_* erased
+// the other parameters of path X).
+func c09EnvPreserves(c *Ctx, p *Prog) {
+	n := 0
+	for _, fn := range p.ModFuncs() {
+		if fn.Name() != "UnmarshalEnv" || fn.Signature.Recv() == nil || !hasSuffixStr(funcPkgPath(fn), "/internal/conf") {
+			continue
+		}
+		for _, ld := range callsIn(fn, "conf/env.Load") {
+			args := callCommon(ld).Args
+			if len(args) != 2 {
+				continue
+			}
+			d := desc(args[1])
+			if len(d) < 4 || d[:3] != "$0." {
+				continue
+			}
+			n++
+			field := d[3:]
+			stores := 0
+			eachInstr(fn, func(i ssa.Instruction) {
+				st, ok := i.(*ssa.Store)
+				if !ok || desc(st.Addr) != d {
+					return
+				}
+				stores++
+				ii := i
+				c.MustPass(p, fn, "C09.env_preserves_file_values", "store to receiver."+field+" before env.Load", func(j ssa.Instruction) bool { return j == ii }, T("("+d+" == nil)"))
+			})
+			if stores == 0 {
+				c.Check("C09.env_preserves_file_values", fnName(fn)+": env.Load fills the existing receiver."+field, true, p.Pos(fn.Pos()), "")
+			}
+		}
+	}
+	c.Floor("C09.env_preserves_file_values", n, 1)
+}
+
+func hasSuffixStr(s, suf string) bool { return len(s) >= len(suf) && s[len(s)-len(suf):] == suf }
